@@ -8,7 +8,7 @@ Model of PrimAITE's observation layer (game/agent/observations/*.py, game/agent/
   (`nmne_*_last_step`, `cached_obs`), with three functions each, written side by side like the source:
   `…Val` = value returned by `observe(state)`, `…Next` = the object after that call, `…Space` = `space`,
   `…Default` = `default_observation`.
-* Where Python raises (KeyError on a missing ACL slot, on a missing `nmne` / user-session
+* Where Python raises (KeyError on a missing ACL slot, on a missing user-session
   entry, ZeroDivisionError on speed 0) the value is `Val.raised`, which no space contains.
 
 Core Lean only.
@@ -384,27 +384,27 @@ def NicState.amount (n : NicState) (proto : String) (port : Option Nat) (inbound
 def NicObs.trafficLeaf (n : NicState) (proto : String) (port : Option Nat) (inbound : Bool) : Val :=
   utilBin trafficClamp (n.amount proto port inbound) n.speed
 
-/-- `capture` is the class attribute `NICObservation.capture_nmne`.  (The source inserts `TRAFFIC` before `NMNE`; key order is
-not observable through `contains` or `flatten`, so the model keeps the order of `space`.) -/
-def NicObs.val (capture : Bool) (o : NicObs) (st : SimState) : Val :=
+/-- Whether malicious network events are captured is a property of the OBSERVED interface (its network's settings): the interface
+publishes an `nmne` entry exactly when it captures, and `observe` follows that entry (`capture_nmne = "nmne" in nic_state`; since the
+F-10 repair no class attribute is consulted).  (The source inserts `TRAFFIC` before `NMNE`; key order is not observable through
+`contains` or `flatten`, so the model keeps the order of `space`.) -/
+def NicObs.val (o : NicObs) (st : SimState) : Val :=
   match o.find st with
   | none => o.default
   | some n =>
     .dict ((.s "nic_status", .int (if n.enabled then nicEnabledCode else nicDisabledCode)) ::
       (optEntry o.includeNmne (.s "NMNE")
-         (if capture then
-            match n.nmne with
-            | none => .raised
-            | some (i, u) => .dict (dirDict (.int (categorise o.thr ((i : Int) - o.lastIn)))
-                                           (.int (categorise o.thr ((u : Int) - o.lastOut))))
-          else .dict (dirDict (.int 0) (.int 0))) ++
+         (match n.nmne with
+          | none => .dict (dirDict (.int 0) (.int 0))
+          | some (i, u) => .dict (dirDict (.int (categorise o.thr ((i : Int) - o.lastIn)))
+                                         (.int (categorise o.thr ((u : Int) - o.lastOut))))) ++
        optEntry (!o.traffic.isEmpty) (.s "TRAFFIC") (.dict (trafficEntries Val.dict o.traffic (NicObs.trafficLeaf n)))))
 
-def NicObs.next (capture : Bool) (o : NicObs) (st : SimState) : NicObs :=
+def NicObs.next (o : NicObs) (st : SimState) : NicObs :=
   match o.find st with
   | none => o
   | some n =>
-    if capture && o.includeNmne then
+    if o.includeNmne then
       match n.nmne with
       | none => o
       | some (i, u) => { o with lastIn := i, lastOut := u }
@@ -601,12 +601,12 @@ def HostObs.offVal (o : HostObs) (op : Nat) : Val :=
      optEntry o.numAccess (.s "num_file_deletions") (.int 0) ++
      optEntry o.users (.s "users") usersDefault))
 
-def HostObs.onVal (capture : Bool) (o : HostObs) (st : SimState) (n : NodeState) : Val :=
+def HostObs.onVal (o : HostObs) (st : SimState) (n : NodeState) : Val :=
   .dict ((.s "operating_status", .int n.op) ::
     (optEntry (!o.services.isEmpty) (.s "SERVICES") (.dict (enumFrom 1 (o.services.map (·.val st)))) ++
      optEntry (!o.apps.isEmpty) (.s "APPLICATIONS") (.dict (enumFrom 1 (o.apps.map (·.val st)))) ++
      optEntry (!o.folders.isEmpty) (.s "FOLDERS") (.dict (enumFrom 1 (o.folders.map (·.val st)))) ++
-     optEntry (!o.nics.isEmpty) (.s "NICS") (.dict (enumFrom 1 (o.nics.map (NicObs.val capture · st)))) ++
+     optEntry (!o.nics.isEmpty) (.s "NICS") (.dict (enumFrom 1 (o.nics.map (NicObs.val · st)))) ++
      optEntry o.numAccess (.s "num_file_creations") (.int (min n.numCreations fileCountClamp)) ++
      optEntry o.numAccess (.s "num_file_deletions") (.int (min n.numDeletions fileCountClamp)) ++
      optEntry o.users (.s "users") (usersVal n.usm)))
@@ -616,18 +616,18 @@ def HostObs.find (o : HostObs) (st : SimState) : Option NodeState :=
   | none => none
   | some h => st.node h
 
-def HostObs.val (capture : Bool) (o : HostObs) (st : SimState) : Val :=
+def HostObs.val (o : HostObs) (st : SimState) : Val :=
   match o.find st with
   | none => o.default
-  | some n => if n.op = nodeOn then o.onVal capture st n else o.offVal n.op
+  | some n => if n.op = nodeOn then o.onVal st n else o.offVal n.op
 
 /-- children are observed (and so update their memory) only when the node is present and ON -/
-def HostObs.next (capture : Bool) (o : HostObs) (st : SimState) : HostObs :=
+def HostObs.next (o : HostObs) (st : SimState) : HostObs :=
   match o.find st with
   | none => o
   | some n =>
     if n.op = nodeOn then
-      { o with folders := o.folders.map (·.next st), nics := o.nics.map (NicObs.next capture · st) }
+      { o with folders := o.folders.map (·.next st), nics := o.nics.map (NicObs.next · st) }
     else o
 
 /-! ## RouterObservation -/
@@ -720,12 +720,12 @@ def NodesObs.space (o : NodesObs) : Space :=
   .dict (enumTag "HOST" 0 (o.hosts.map HostObs.space) ++ enumTag "ROUTER" 0 (o.routers.map RouterObs.space) ++
          enumTag "FIREWALL" 0 (o.firewalls.map FirewallObs.space))
 
-def NodesObs.val (capture : Bool) (o : NodesObs) (st : SimState) : Val :=
-  .dict (enumTag "HOST" 0 (o.hosts.map (HostObs.val capture · st)) ++ enumTag "ROUTER" 0 (o.routers.map (·.val st)) ++
+def NodesObs.val (o : NodesObs) (st : SimState) : Val :=
+  .dict (enumTag "HOST" 0 (o.hosts.map (HostObs.val · st)) ++ enumTag "ROUTER" 0 (o.routers.map (·.val st)) ++
          enumTag "FIREWALL" 0 (o.firewalls.map (·.val st)))
 
-def NodesObs.next (capture : Bool) (o : NodesObs) (st : SimState) : NodesObs :=
-  { o with hosts := o.hosts.map (HostObs.next capture · st) }
+def NodesObs.next (o : NodesObs) (st : SimState) : NodesObs :=
+  { o with hosts := o.hosts.map (HostObs.next · st) }
 
 /-- Any observation object. `nested` is `NestedObservation` (its `components` dict: labels are distinct). -/
 inductive Obs where
@@ -790,48 +790,48 @@ def Obs.defaultL : List (String × Obs) → List (Key × Val)
 end
 
 mutual
-/-- `observe(state)`; `capture` = class attribute `NICObservation.capture_nmne`. -/
-def Obs.val (capture : Bool) (st : SimState) : Obs → Val
+/-- `observe(state)` -/
+def Obs.val (st : SimState) : Obs → Val
   | .null => .int 0
   | .service o => o.val st
   | .app o => o.val st
   | .file o => o.val st
   | .folder o => o.val st
-  | .nic o => o.val capture st
+  | .nic o => o.val st
   | .port o => o.val st
   | .link o => o.val st
   | .links os => .dict (enumFrom 1 (os.map (·.val st)))
   | .acl o => o.val st
-  | .host o => o.val capture st
+  | .host o => o.val st
   | .router o => o.val st
   | .firewall o => o.val st
-  | .nodes o => o.val capture st
-  | .nested cs => .dict (Obs.valL capture st cs)
-def Obs.valL (capture : Bool) (st : SimState) : List (String × Obs) → List (Key × Val)
+  | .nodes o => o.val st
+  | .nested cs => .dict (Obs.valL st cs)
+def Obs.valL (st : SimState) : List (String × Obs) → List (Key × Val)
   | [] => []
-  | c :: cs => (Key.s c.1, c.2.val capture st) :: Obs.valL capture st cs
+  | c :: cs => (Key.s c.1, c.2.val st) :: Obs.valL st cs
 end
 
 mutual
 /-- the object after `observe(state)` -/
-def Obs.next (capture : Bool) (st : SimState) : Obs → Obs
+def Obs.next (st : SimState) : Obs → Obs
   | .folder o => .folder (o.next st)
-  | .nic o => .nic (o.next capture st)
+  | .nic o => .nic (o.next st)
   | .link o => .link (o.next st)
   | .links os => .links (os.map (·.next st))
-  | .host o => .host (o.next capture st)
-  | .nodes o => .nodes (o.next capture st)
-  | .nested cs => .nested (Obs.nextL capture st cs)
+  | .host o => .host (o.next st)
+  | .nodes o => .nodes (o.next st)
+  | .nested cs => .nested (Obs.nextL st cs)
   | o => o
-def Obs.nextL (capture : Bool) (st : SimState) : List (String × Obs) → List (String × Obs)
+def Obs.nextL (st : SimState) : List (String × Obs) → List (String × Obs)
   | [] => []
-  | c :: cs => (c.1, c.2.next capture st) :: Obs.nextL capture st cs
+  | c :: cs => (c.1, c.2.next st) :: Obs.nextL st cs
 end
 
 /-- observations along a trajectory of simulation states: what `update_agents` reports step by step -/
-def Obs.run (capture : Bool) : Obs → List SimState → List Val
+def Obs.run : Obs → List SimState → List Val
   | _, [] => []
-  | o, st :: rest => o.val capture st :: Obs.run capture (o.next capture st) rest
+  | o, st :: rest => o.val st :: Obs.run (o.next st) rest
 
 /-! ## construction from configuration: padding / truncation of slot lists (`__init__`) -/
 
